@@ -294,6 +294,14 @@ func storesOf(info *types.Info, fd *ast.FuncDecl) (pkgVars map[string]token.Pos,
 			}
 		case *ast.IncDecStmt:
 			record(x.X)
+		case *ast.UnaryExpr:
+			// &V of a package-level variable itself (not of an element of it): the pointer escapes to a callee or
+			// a local, every store through it hits V
+			if x.Op == token.AND {
+				if id, ok := unparen(x.X).(*ast.Ident); ok && isPkgLevelVar(info.Uses[id]) {
+					pkgVars[id.Name] = x.Pos()
+				}
+			}
 		}
 		return true
 	})
